@@ -400,7 +400,7 @@ def _is_data_line(ln, fmt):
     return s[0] in "-+.0123456789" or s[:3].lower() == "nan"
 
 
-def _excerpt(path, fmt, max_tokens=900):
+def _excerpt(path, fmt, max_tokens=320):
     """header (everything up to the first case) + first cases + last case of a bundled file."""
     lines = _read_lines(path)
     if fmt == "tsv":
@@ -428,7 +428,7 @@ def _row_fp(X, i):
         s = X.iloc[i, j]
         h.update(np.asarray(s.values, dtype="float64").tobytes())
         h.update(b"|")
-    return h.hexdigest()[:10]
+    return h.hexdigest()[:6]
 
 
 def _ulp10(v):
@@ -522,8 +522,9 @@ def run_impl(case):
                                 x, y = float(x), float(y)
                                 if x != x and y != y:
                                     continue
-                                # half a unit of the last digit of the coarser of the two literals
-                                tol = 0.5 * max(_ulp10(x), _ulp10(y)) * (1 + 1e-9)
+                                # one unit of the last digit of the coarser of the two literals (the bundled
+                                # roundings are double-rounded in places: half a unit is too strict)
+                                tol = max(_ulp10(x), _ulp10(y)) * (1 + 1e-9)
                                 dd = abs(x - y)
                                 if not dd <= tol:
                                     nbad += 1
@@ -640,7 +641,7 @@ def oracle(case, out):
             return "formats-labels: .ts labels are not lower-cased"
         for pair, r in out["pairs"].items():
             if r["values"] == 0 or r["beyond_printed_precision"]:
-                return ("formats-values: %s: %d of %d values differ beyond half a unit of the coarser "
+                return ("formats-values: %s: %d of %d values differ beyond one unit of the coarser "
                         "printed literal, first %s" % (pair, r["beyond_printed_precision"],
                                                        r["values"], r["first"]))
         return None
@@ -790,9 +791,9 @@ def coq_case(case, out):
 
         def fr(d):
             return clist(["([[%s]], %s)" % (_s(fp), _s(y)) for fp, y in zip(d["fp"], d["y"] or [])])
-        return "CSplit %s %s %s %s %s %s %s %s" % (
+        return "CSplit %s %s %s %s %s %s" % (
             xy(out["file_train"]), xy(out["file_test"]), xy(out["xy_none"]), xy(out["xy_train"]),
-            xy(out["xy_test"]), fr(out["fr_none"]), fr(out["fr_train"]), fr(out["fr_test"]))
+            xy(out["xy_test"]), fr(out["fr_none"]))
     return None
 
 
